@@ -6,7 +6,7 @@
    the model is unique and [cden] computes it; [vden] is the TRIPOLI-4 reading of a
    volume table. *)
 From Coq Require Import List ZArith NArith Bool Reals Permutation Lia.
-From T4V Require Import Base.Scalar C13.Model C13.Spec C13.Proofs C13.ProofsDedup.
+From T4V Require Import Base.Scalar C13.Model C13.Spec C13.Proofs C13.ProofsDedup C13.ProofsFill.
 Import ListNotations.
 Open Scope Z_scope.
 
@@ -136,7 +136,49 @@ Theorem C13_fill_geometry_den : forall sigma rho dic fd fg key cell elt ec,
 Proof. exact fill_geometry_den. Qed.
 Print Assumptions C13_fill_geometry_den.
 
+(* ---- all options together, over the model pipeline ---- *)
+(* The options act in two places of the pipeline, separated by the conversion of
+   cell trees into volumes (C01).  (1) construct_volume_t4 from "treat FILL" to
+   "consider inlining": for any two option vectors (inline flags, and ANY two sets
+   of cells selected by --max-inline-score) the resulting cell tables have the
+   same cells, the same fresh-key counter, are both acyclic, and every cell has
+   the same denotation under every sense assignment (cell tables without FILL /
+   TRCL transformations; acyclic, keys below the counter).  (2) convertMCNPGeometry
+   with or without --skip-deduplication: over whatever surface and volume tables
+   the conversion built, every volume has the same denotation for the senses
+   induced by any function of the surface descriptors. *)
+Theorem C13_options_same_geometry :
+  (forall fuel (o1 o2 : options) dic counter d1 c1 d2 c2,
+     (forall k, lookup k dic <> None -> k <= counter) ->
+     (exists rank, acyclic rank dic) ->
+     cell_stage fuel o1 dic counter = Ok (d1, c1) ->
+     cell_stage fuel o2 dic counter = Ok (d2, c2) ->
+     c1 = c2 /\ map fst d1 = map fst d2 /\
+     exists r1 r2, acyclic r1 d1 /\ acyclic r2 d2 /\
+       forall sigma k, lookup k d1 <> None -> cden r1 sigma d1 k = cden r2 sigma d2 k)
+  /\
+  (forall (sense : desc R -> bool) (o1 o2 : options) surfs volus s1 v1 s2 v2,
+     NoDup (map fst surfs) ->
+     dedup_stage RS (skip_dedup o1) surfs volus = Ok (s1, v1) ->
+     dedup_stage RS (skip_dedup o2) surfs volus = Ok (s2, v2) ->
+     forall fuel k, vden fuel (sense_of sense s1) v1 k = vden fuel (sense_of sense s2) v2 k).
+Proof. exact options_same_geometry. Qed.
+Print Assumptions C13_options_same_geometry.
+
 (* ---- non-vacuity ---- *)
+(* a container (cell 1, FILL=1) and the two cells of universe 1: the stage under
+   the default flags with nothing inlined, and with both flags and {1, 10} inlined *)
+Example C13_example_options :
+  let dic := [(1, mkCell 0 (Some 1) (GNode true [GSurf (-1)])); (2, mkCell 0 None (GNode true [GSurf 1]));
+              (10, mkCell 1 None (GNode true [GSurf (-2)])); (11, mkCell 1 None (GNode true [GSurf 2]))] in
+  cell_stage 10 (mkOptions false false false []) dic 11 =
+    Ok (dic ++ [(12, mkCell 0 None (GNode true [GRef 1; GRef 10]));
+                (13, mkCell 0 None (GNode true [GRef 1; GRef 11]))], 13) /\
+  cell_stage 10 (mkOptions true true true [1; 10]) dic 11 =
+    Ok (dic ++ [(12, mkCell 0 None (GNode true [GNode true [GSurf (-1)]; GNode true [GSurf (-2)]]));
+                (13, mkCell 0 None (GNode true [GNode true [GSurf (-1)]; GNode true [GSurf 2]]))], 13).
+Proof. cbv zeta. split; vm_compute; reflexivity. Qed.
+
 (* a two-level table: cell 1 = -1 AND cell 10, cell 10 = 2 : cell 20, cell 20 = -3;
    inlining {10, 20} rewrites cell 1 and cell 10; hypotheses of C13_inline_den hold *)
 Example C13_example_inline :
